@@ -198,6 +198,122 @@ def drain_oracle(maxf, ops):
     return asyncio.run(main())
 
 
+# ----------------------------------------------------------------------------- host level
+def gen_host_scenario(rng):
+    """A real Host reset against a real virtual Controller with generated buffer geometry (including a dual-mode
+    controller WITHOUT dedicated LE buffers, i.e. LE shares the BR/EDR pool), k classic + k LE connections, and a
+    history of send / complete / disconnect operations."""
+    shared = rng.chance(1, 2)
+    geom = {'acl_len': rng.choice([27, 64, 251]), 'acl_count': rng.choice([1, 2, 3, 4, 8]),
+            'le_len': 0 if shared else rng.choice([27, 64, 251]), 'le_count': 0 if shared else rng.choice([1, 2, 3, 8])}
+    nc, nl = rng.choice([0, 1, 1, 2]), rng.choice([1, 1, 2])
+    handles = [['c', 1 + i] for i in range(nc)] + [['l', 0x41 + i] for i in range(nl)]
+    ops = []
+    live = [h for _, h in handles]
+    for _ in range(rng.range(4, 40)):
+        r = rng.below(100)
+        if r < 55 and live:
+            ops.append(['S', rng.choice(live), rng.choice([1, 1, 2, 3])])      # send k one-fragment SDUs
+        elif r < 92:
+            ops.append(['C', rng.choice([1, 1, 2, 3, 9])])                   # controller completes k held packets
+        elif live:
+            h = rng.choice(live)
+            live.remove(h)
+            ops.append(['D', h])                                           # the connection goes away
+    ops.append(['C', 999])
+    return {'geom': geom, 'handles': handles, 'ops': ops}
+
+
+def run_host_scenario(sc):
+    """Returns None or a description of the violation, judged at the host/controller boundary only."""
+    from bumble import hci
+    from bumble.controller import Controller
+    from bumble.host import Host
+    from bumble.transport.common import AsyncPipeSink
+
+    g = sc['geom']
+    kind = {h: k for k, h in sc['handles']}
+
+    class Ctl(Controller):
+        def __init__(self):
+            super().__init__('C')
+            self.acl_data_packet_length = g['acl_len']
+            self.total_num_acl_data_packets = g['acl_count']
+            self.le_acl_data_packet_length = g['le_len']
+            self.total_num_le_acl_data_packets = g['le_count']
+            self.held = []          # occupied buffers, oldest first
+            self.received = []
+            self.over = None
+
+        def pool(self, handle):
+            return 'le' if (kind.get(handle) == 'l' and g['le_count']) else 'acl'
+
+        def on_hci_acl_data_packet(self, packet):
+            self.held.append(packet)
+            self.received.append((packet.connection_handle, bytes(packet.data)))
+            for pool, cap in (('acl', g['acl_count']), ('le', g['le_count'])):
+                n = sum(1 for p in self.held if self.pool(p.connection_handle) == pool)
+                if cap and n > cap and self.over is None:
+                    self.over = f'{n} packets outstanding in the {pool} pool, the controller advertised {cap}'
+
+    async def main():
+        ctl = Ctl()
+        host = Host(ctl, AsyncPipeSink(ctl))
+        await host.reset()
+
+        async def settle():
+            for _ in range(12):
+                await asyncio.sleep(0)
+
+        for k, h in sc['handles']:
+            if k == 'c':
+                ctl.send_hci_packet(hci.HCI_Connection_Complete_Event(
+                    status=0, connection_handle=h, bd_addr=hci.Address(f'11:22:33:44:55:{h:02X}', hci.Address.PUBLIC_DEVICE_ADDRESS),
+                    link_type=hci.HCI_Connection_Complete_Event.LinkType.ACL, encryption_enabled=0))
+            else:
+                ctl.send_hci_packet(hci.HCI_LE_Connection_Complete_Event(
+                    status=0, connection_handle=h, role=hci.Role.CENTRAL, peer_address_type=hci.AddressType.PUBLIC_DEVICE,
+                    peer_address=hci.Address(f'AA:BB:CC:DD:EE:{h:02X}', hci.Address.PUBLIC_DEVICE_ADDRESS),
+                    connection_interval=24, peripheral_latency=0, supervision_timeout=100, central_clock_accuracy=0))
+        await settle()
+        expected = {h: [] for _, h in sc['handles']}
+        dead = set()
+        seq = 0
+        for o in sc['ops']:
+            if o[0] == 'S':
+                for _ in range(o[2]):
+                    sdu = bytes([o[1] & 0xFF, seq & 0xFF, seq >> 8])
+                    seq += 1
+                    expected[o[1]].append(sdu)
+                    host.send_acl_sdu(o[1], sdu)
+            elif o[0] == 'C':
+                for _ in range(o[1]):
+                    if not ctl.held:
+                        break
+                    pkt = ctl.held.pop(0)
+                    if pkt.connection_handle in dead:
+                        continue                      # buffers of a dead link are freed by the disconnection
+                    ctl.send_hci_packet(hci.HCI_Number_Of_Completed_Packets_Event(
+                        connection_handles=[pkt.connection_handle], num_completed_packets=[1]))
+                    await settle()
+            else:
+                dead.add(o[1])
+                ctl.held = [p for p in ctl.held if p.connection_handle != o[1]]
+                ctl.send_hci_packet(hci.HCI_Disconnection_Complete_Event(status=0, connection_handle=o[1], reason=0x13))
+            await settle()
+            if ctl.over:
+                return ctl.over
+        for h, sdus in expected.items():
+            got = [d for (hh, d) in ctl.received if hh == h]
+            if h in dead:
+                if got != sdus[:len(got)]:
+                    return f'handle 0x{h:04X} (disconnected): handed over {len(got)} packets that are not a prefix of the {len(sdus)} submitted'
+            elif got != sdus:
+                return f'handle 0x{h:04X}: {len(got)} packets handed over, not the {len(sdus)} submitted exactly once in order'
+        return None
+    return asyncio.run(main())
+
+
 # ----------------------------------------------------------------------------- pipe
 def gen_pipe_history(rng, max_len):
     threshold = rng.choice([0, 1, 3, 10, 1000])
@@ -355,6 +471,17 @@ def run(ctx):
             if bad:
                 ctx.violation('drain:' + _shape(ops), f'DataPacketQueue max_in_flight={maxf}: {bad}',
                               {'kind': 'drain', 'max_in_flight': maxf, 'ops': ops})
+    # ---- host level: queues as Host.reset() wires them to what the controller advertises
+    for k in range(ctx.n(60, 1500)):
+        sc = gen_host_scenario(rng)
+        bad = run_host_scenario(sc)
+        nsent = sum(o[2] for o in sc['ops'] if o[0] == 'S')
+        ctx.case(('h', json.dumps(sc, sort_keys=True)), nsent > sc['geom']['acl_count'], {'kind': 'host', **sc} if k == 3 else None)
+        ctx.count('host.scenarios')
+        ctx.count('host.shared_pool' if not sc['geom']['le_count'] else 'host.dedicated_le_pool')
+        if bad:
+            ctx.violation('host:' + ('shared' if not sc['geom']['le_count'] else 'dedicated') + ':' + bad.split(' ')[1][:12],
+                          f'Host + controller {sc["geom"]}: {bad}', {'kind': 'host', **sc})
     # ---- pipe
     pcases = [(t, ops, True) for t, ops in CORPUS_PIPE] + [(t, ops, False) for t, ops in CORPUS_PIPE]
     for _ in range(ctx.n(400, 4000)):
@@ -416,6 +543,13 @@ def search(ctx):
                               {'kind': 'queue', 'max_in_flight': maxf, 'ops': ops, 'via_host': False})
                 return
     search_pipe(ctx)
+    if not ctx.violations:
+        for _ in range(400):
+            sc = gen_host_scenario(ctx.rng)
+            bad = run_host_scenario(sc)
+            if bad:
+                ctx.violation('host:search', f'Host + controller {sc["geom"]}: {bad}', {'kind': 'host', **sc})
+                return
 
 
 def search_pipe(ctx):
@@ -444,6 +578,8 @@ def replay(ctx, obj):
         per_op, obs = run_queue_impl(r['max_in_flight'], r['ops'], r.get('via_host', False))
         print('sent per op:', per_op)
         print('oracle:', queue_oracle(r['max_in_flight'], r['ops'], per_op) or 'holds')
+    elif r['kind'] == 'host':
+        print('oracle:', run_host_scenario(r) or 'holds')
     elif r['kind'] == 'drain':
         print('oracle:', drain_oracle(r['max_in_flight'], r['ops']) or 'holds')
     else:
